@@ -270,7 +270,15 @@ impl<'a, M: Model> Shared<'a, M> {
         }
         // A state with a violation of *any* property is not expanded (its future is not
         // meaningful); only the masked ones are reported.
-        if bad || !out.violations.is_empty() || out.terminal {
+        if bad || !out.violations.is_empty() {
+            return;
+        }
+        if out.terminal {
+            // reached, judged, never expanded: counted as a state
+            if !self.seen.contains(&out.key) {
+                let sh = (out.key as usize) % self.last_keys.len();
+                self.last_keys[sh].lock().unwrap().insert(out.key);
+            }
             return;
         }
         if self.seen.contains(&out.key) {
